@@ -72,6 +72,8 @@ def alphabet(full=True):
         ("update_mixed", (("B", 0),), (("a", 1),)),
         ("update_self_type", (("A", 3),)),
         ("update_none",),
+        ("update_userdict", (("A", 0), ("b", 1))),
+        ("update_chainmap", (("B", 2), ("a", 3))),
         ("copy",),
         ("copy_method",),
         ("deepcopy",),
@@ -235,6 +237,12 @@ def apply_impl(d, op, CI):
         if name == "update_none":
             d.update()
             return None, d
+        if name == "update_userdict":
+            d.update(collections.UserDict((k, val(v)) for k, v in op[1]))
+            return None, d
+        if name == "update_chainmap":
+            d.update(collections.ChainMap(dict((k, val(v)) for k, v in op[1])))
+            return None, d
         if name in ("copy", "copy_method", "deepcopy", "pickle"):
             if name == "copy":
                 c = copy.copy(d)
@@ -312,7 +320,7 @@ def apply_ref(r, op):
         return canon(od.setdefault(lk)), r
     if name == "setdefault_v":
         return canon(od.setdefault(lk, val(op[2]))), r
-    if name in ("update_dict", "update_collide", "update_pairs", "update_kw", "update_self_type"):
+    if name in ("update_dict", "update_collide", "update_pairs", "update_kw", "update_self_type", "update_userdict", "update_chainmap"):
         for k, v in op[1]:
             od[k.lower()] = val(v)
         return None, r
@@ -482,11 +490,15 @@ def run_loaded(res):
                                 bad = None if all(x == x.lower() for x in ks) else "keys not lower case: %r" % ks
                         except Exception as e:
                             bad = "%s raised %s" % (opname, type(e).__name__)
-                    if bad is None and opname == "missing_list" and type(d) is CI and d.get("__type__") in ("map", "layer", "class") and ks:
-                        key = {"map": "layers", "layer": "classes", "class": "styles"}[d["__type__"]]
+                    if bad is None and opname == "missing_list" and type(d) is CI:
+                        # any dictionary of the result (CONFIG and key-value blocks included) creates the list on first read
+                        key = {"map": "layers", "layer": "classes", "class": "styles"}.get(d.get("__type__"), "styles")
                         if key not in d:
-                            v = d[key.upper()]
-                            bad = None if (v == [] and d[key] is v) else "reading missing %s gives %r" % (key, v)
+                            try:
+                                v = d[key.upper()]
+                                bad = None if (v == [] and d[key] is v) else "reading missing %s gives %r" % (key, v)
+                            except Exception as e:
+                                bad = "reading the missing object-list key %s raised %s" % (key, type(e).__name__)
                     if bad:
                         R.add_outcome(res, "divergence")
                         R.add_violation(res, "loaded|%s|%s|%s" % (opname, path, text[:40]), "a dictionary inside the result of loads does not behave as a case-insensitive ordered dict: at %s %s" % (path, bad),
